@@ -114,7 +114,7 @@ pub fn op_cases(tier: &str, seed: u64) -> Vec<Vec<Op>> {
         }
     }
     // compositions of up to 4 filters
-    let n = if thorough { 6000 } else { 800 };
+    let n = if thorough { 40000 } else { 800 };
     for _ in 0..n {
         let mut ops = vec![match rng.below(4) {
             0 => Op::Default,
@@ -141,7 +141,7 @@ pub fn op_cases(tier: &str, seed: u64) -> Vec<Vec<Op>> {
         out.push(ops);
     }
     // whitelists (any order, duplicates), From<SymbolSize>, extend after construction
-    let n = if thorough { 2000 } else { 300 };
+    let n = if thorough { 12000 } else { 300 };
     for _ in 0..n {
         let k = rng.range(0, 10);
         let mut ops = vec![if k == 1 && rng.chance(1, 2) { Op::FromSize(sizes[rng.below(48)]) } else { Op::Whitelist((0..k).map(|_| sizes[rng.below(48)]).collect()) }];
